@@ -73,6 +73,7 @@ package fluentdforward
 //@   ghostset lastparams := *params
 //@   ensures  lastparams.NumRecords == params.NumRecords && lastparams.ID === params.ID && lastparams.IsCompressed == params.IsCompressed
 //@   ensures[in-memory-writers-do-not-fail] result.1 == nil
+//@   ensures  isfresh(result.0) || len(result.0) == 0
 
 //@ pure func canfit(c *intermediateChunk, n int) bool :=
 //@     (c.maxRecords > 0 ==> c.numRecords < c.maxRecords) && (c.maxBytes > 0 ==> c.numBytes + n <= c.maxBytes)
@@ -85,10 +86,12 @@ package fluentdforward
 //@     c != nil && c.writeBuffer != nil && c.numRecords >= 0 && c.numBytes >= 0 && limitsok(c) && c.numBytes == wbytes[cwriter(c)]
 
 //@ func (chunk *intermediateChunk) CanAppendData(dataLength int) bool
+//@   property C11
 //@   requires chunk != nil
 //@   ensures  result <==> canfit(chunk, dataLength)
 
 //@ func (chunk *intermediateChunk) Write(data base.LogStream) error
+//@   property C11
 //@   requires validchunk(chunk) && (chunk.numRecords == 0 || canfit(chunk, len(data)))
 //@   modifies chunk.numRecords, chunk.numBytes, wbytes[cwriter(chunk)]
 //@   ensures  result == nil ==> validchunk(chunk)
@@ -98,15 +101,19 @@ package fluentdforward
 
 // self-describing: the encoder is given this chunk's id, record count and compression flag; the chunk carries the id
 //@ func (chunk *intermediateChunk) FinalizeChunk() (*base.LogChunk, error)
+//@   property C11
 //@   requires validchunk(chunk)
 //@   modifies lastparams, wbytes[ref(chunk.writeBuffer)]
 //@   ensures  result.1 == nil ==> result.0 != nil && result.0.ID === chunk.id && !result.0.Saved
+//@   ensures[data-is-a-private-copy] result.1 == nil ==> isfresh(result.0.Data) || len(result.0.Data) == 0
 //@   ensures  result.1 == nil && chunk.encoder != nil ==> lastparams.NumRecords == chunk.numRecords && lastparams.ID === chunk.id
 //@                                                     && lastparams.IsCompressed == (chunk.compressor != nil)
 
 //@ func (enc *chunkEncoder) EncodeChunk(data []byte, params *encodeChunkParams) ([]byte, error)
+//@   property C11
 //@   requires enc != nil && enc.msgpackEncoder != nil && enc.msgpackEncoderBuffer != nil && params != nil
 //@   modifies lastarrlen, laststr, lastenc, wbytes[ref(enc.msgpackEncoderBuffer)]
+//@   ensures[data-is-a-private-copy] result.1 == nil ==> isfresh(result.0) || len(result.0) == 0
 //@   ensures[tag] result.1 == nil ==> laststr === enc.tag
 //@   ensures[option] result.1 == nil ==> typeis(lastenc, forwardprotocol.TransportOption)
 //@        && as(lastenc, forwardprotocol.TransportOption).Size == params.NumRecords && as(lastenc, forwardprotocol.TransportOption).Chunk === params.ID
